@@ -212,39 +212,70 @@ class _Canon(ast.NodeTransformer):
 
 def _facts(repo: Repo, f: Func) -> Set[str]:
     """Fact set of a LOT kernel after its prologue: calls to repository functions with bound arguments and
-    their dominating guards, plus the truncation and the final rescaling."""
+    their dominating guards, plus the truncation and the final rescaling.  Locals are written L0, L1, ... in the
+    order in which the pipeline first mentions them, so the comparison does not depend on how each kernel names
+    its per-row arrays (parameters keep their names: they are the kernels' shared interface)."""
+    import copy
+
     g = CFG(f.node)
     pm = parents_map(f.node)
-    facts = set()
-    import re
-
-    local_arrays = set()
+    local_names = set()
     for n in walk_no_nested(f.node):
         if isinstance(n, ast.Assign):
             for t in n.targets:
-                if isinstance(t, ast.Name):
-                    local_arrays.add(t.id)
-    local_arrays -= set(f.params)
+                for x in ast.walk(t):
+                    if isinstance(x, ast.Name):
+                        local_names.add(x.id)
+        elif isinstance(n, ast.For):
+            for x in ast.walk(n.target):
+                if isinstance(x, ast.Name):
+                    local_names.add(x.id)
+    local_names -= set(f.params)
 
-    def canon_guard(txt: str) -> str:
+    class RowSize(ast.NodeTransformer):
         # the size of the row's support is spelled through whichever per-row array is at hand
-        return re.sub(r"\b(%s)\.shape\[0\]" % "|".join(sorted(map(re.escape, local_arrays))), "ROW.shape[0]", txt) if local_arrays else txt
+        def visit_Subscript(self, node):
+            self.generic_visit(node)
+            if isinstance(node.value, ast.Attribute) and node.value.attr == "shape" and isinstance(node.value.value, ast.Name) \
+                    and node.value.value.id in local_names and isinstance(node.slice, ast.Constant) and node.slice.value == 0:
+                return ast.copy_location(ast.Name(id="ROW_SIZE", ctx=ast.Load()), node)
+            return node
 
+    numbering: Dict[str, str] = {}
+
+    class Number(ast.NodeTransformer):
+        def visit_Name(self, node):
+            if node.id in local_names:
+                if node.id not in numbering:
+                    numbering[node.id] = "L%d" % len(numbering)
+                return ast.copy_location(ast.Name(id=numbering[node.id], ctx=node.ctx), node)
+            return node
+
+    def txt(e: ast.AST) -> str:
+        return norm(Number().visit(RowSize().visit(copy.deepcopy(e))))
+
+    raw = []
     for c in repo.calls_in(f):
         tg = [t for t in repo.resolve_call(f, c) if isinstance(t, Func)]
-        name = None
         if tg:
             b = repo.bind_args(tg[0], c)
-            name = "%s(%s)" % (tg[0].name, ", ".join("%s=%s" % (k, norm(v)) for k, v in sorted(b.items())))
+            parts = ("call", tg[0].name, sorted(b.items()))
         elif repo.canonical(f.module, c.func) in ("numpy.argsort", "numpy.sign", "numpy.sqrt", "numpy.abs"):
-            name = norm(c)
-        if name is None:
+            parts = ("expr", None, c)
+        else:
             continue
         st = enclosing_stmt(c, pm)
         nid = g.node_for(st)
-        guards = sorted("%s%s" % ("" if lab in ("true", "iter") else "not ", canon_guard(norm(g.nodes[t].ast))) for t, lab in g.guards_of(nid)
-                        if g.nodes[t].kind == "test")
-        facts.add("%s | %s" % (name, "; ".join(guards)))
+        guards = [(g.nodes[t].ast, lab) for t, lab in g.guards_of(nid) if g.nodes[t].kind == "test"]
+        raw.append((c.lineno, c.col_offset, parts, guards))
+    facts = set()
+    for _, _, parts, guards in sorted(raw, key=lambda r: (r[0], r[1])):
+        gs = sorted("%s%s" % ("" if lab in ("true", "iter") else "not ", txt(t)) for t, lab in sorted(guards, key=lambda x: x[0].lineno))
+        if parts[0] == "call":
+            name = "%s(%s)" % (parts[1], ", ".join("%s=%s" % (k, txt(v)) for k, v in parts[2]))
+        else:
+            name = txt(parts[2])
+        facts.add("%s | %s" % (name, "; ".join(gs)))
     return facts
 
 
